@@ -680,6 +680,33 @@ def install(ctx):
             acc = yield from ip.call_closure(args[2], [acc, o.payload[1][0]])
         raise OutOfBound('fold unrolling')
 
+    @M.reg('<Iterator>::try_fold')
+    def it_try_fold(ip, pc, args, dt):
+        r = args[0]
+        it = as_window(ip, read_loc(r.loc) if isinstance(r, Ref) else r)
+        acc = args[1]
+        for _ in range(ip.unroll + 2):
+            it, o = yield from iter_next(ip, it)
+            if isinstance(r, Ref):
+                write_loc(r.loc, it)
+            if variant_of(ip, o) == 0:
+                # Try::from_output(acc): Some(acc) / Ok(acc) according to what the closure produces
+                kind = getattr(ip, '_try_fold_kind', 'Option')
+                return some(acc) if kind == 'Option' else ok(acc)
+            res = yield from ip.call_closure(args[2], [acc, o.payload[1][0]])
+            ip._try_fold_kind = res.name
+            if res.name == 'Option':
+                if variant_of(ip, res) == 0:
+                    return res
+                acc = res.payload[1][0]
+            elif res.name == 'Result':
+                if variant_of(ip, res) == 1:
+                    return res
+                acc = res.payload[0][0]
+            else:
+                raise Unsupported('try_fold over %s' % res.name)
+        raise OutOfBound('try_fold unrolling')
+
     @M.reg('<Iterator>::count')
     def it_count(ip, pc, args, dt):
         it = as_window(ip, args[0])
